@@ -176,6 +176,14 @@ class yanny(OrderedDict):
             s = x.decode()
         else:
             s = str(x)
+        if isinstance(x, np.float32) and x == x and np.float32(float(s)) != x:
+            #
+            # Values are read back with float(), i.e. through float64, and
+            # only then cast to float32.  For a few float32 values the
+            # shortest text rounds twice that way and lands on a neighbouring
+            # value; these are written with the exact float64 text instead.
+            #
+            s = str(float(x))
         if len(s) == 0 or s.find('#') >= 0 or re.search(r'\s+', s) is not None:
             return '"' + s + '"'
         else:
